@@ -808,6 +808,28 @@ class C05(core.PropertyCheck):
                 for mask in range(2 ** len(req)):
                     yield {"kind": "msg", "directive": d, "given": [o for i, o in enumerate(req) if mask >> i & 1]}
             yield {"kind": "children"}
+        # what a broken configuration is reported as must not depend on string hashing either: tables that lack SEVERAL required
+        # fields (of different types), several unknown fields, several wrong types at once
+        for t in ('[manpages.m1]\nfile = "index.txt"\n', '[manpages.m1]\n', '[[banners]]\nvalue = "x"\n', '[bundle]\nbogus = 1\nalso_bogus = 2\n',
+                  '[manpages.m1]\nfile = "index.txt"\n\n[manpages.m2]\ntitle = "T"\n'):
+            yield {"kind": "loaderr", "toml": 'name = "c05"\n\n' + t}
+        for _ in range(6 if tier == "quick" else 40):
+            parts = ['name = "c05"']
+            for _ in range(rng.randint(1, 3)):
+                r = rng.random()
+                if r < 0.4:
+                    have = rng.sample(['file = "index.txt"', 'title = "T"', "section = 1"], rng.randint(0, 1))
+                    parts += ["", f"[manpages.m{rng.randint(0, 9)}]"] + have
+                elif r < 0.7:
+                    have = rng.sample(['targets = ["*"]', 'variant = "info"', 'value = "text"'], rng.randint(0, 1))
+                    parts += ["", "[[banners]]"] + have
+                elif r < 0.85:
+                    parts.insert(1, f"bogus_{rng.randint(0, 9)} = 1")
+                    parts.insert(1, f"unknown_{rng.randint(0, 9)} = 2")
+                else:
+                    parts.insert(1, "title = 5")
+                    parts.insert(1, "intersphinx = 7")
+            yield {"kind": "loaderr", "toml": "\n".join(parts) + "\n"}
         for _ in range(budget):
             yield {"kind": "shash", "spec": gen_val(rng, rng.randint(1, 4))}
         for _ in range(budget // 4):
@@ -923,6 +945,23 @@ class C05(core.PropertyCheck):
             return {"a": run_manifest(case["assets"], case["events"]), "b": run_manifest(case["assets2"], case["events2"]), "enum": enum1}
         if k == "msg":
             return {"fwd": run_missing(case["directive"], case["given"], False), "rev": run_missing(case["directive"], case["given"], True)}
+        if k == "loaderr":
+            base = Path(tempfile.mkdtemp(prefix="c05-loaderr-"))
+            try:
+                (base / "source").mkdir()
+                (base / "snooty.toml").write_text(case["toml"], encoding="utf-8")
+                outs = []
+                for seed in (1, 2, 3, 5, 8, 13):
+                    env = {k_: v for k_, v in os.environ.items() if k_ != "PYTHONHASHSEED"}
+                    env.update(PYTHONHASHSEED=str(seed), PYTHONPATH=str(core.REPO))
+                    p = subprocess.run(["/venv/bin/python", str(Path(__file__).resolve().parent.parent / "impl" / "c05_loaderr.py"), str(base)],
+                                       env=env, stdout=subprocess.PIPE, stderr=subprocess.PIPE, text=True, timeout=120, cwd=str(core.REPO))
+                    if p.returncode != 0:
+                        raise core.Infra(f"c05_loaderr failed: {p.stderr[-300:]}")
+                    outs.append([seed, p.stdout])
+            finally:
+                shutil.rmtree(base, ignore_errors=True)
+            return {"outs": outs}
         if k == "children":
             _page, diags = rst.parse(WAYFINDING)
             return {"suggestions": [d.suggestion for d in diags if isinstance(d, InvalidChild)]}
@@ -1002,6 +1041,12 @@ class C05(core.PropertyCheck):
                 return f"manifest diagnostics entries depend on reporting order: {impl['a']['diagnostics']} vs {impl['b']['diagnostics']}"
             if impl["a"]["zip_sha"] != impl["b"]["zip_sha"]:
                 return "manifest bytes depend on reporting order / set enumeration"
+        elif k == "loaderr":
+            first = impl["outs"][0]
+            for seed, out in impl["outs"][1:]:
+                if out != first[1]:
+                    return (f"what opening the project reports depends on string hashing: PYTHONHASHSEED={first[0]} gives {first[1][:300]}, "
+                            f"PYTHONHASHSEED={seed} gives {out[:300]}")
         elif k == "msg":
             if impl["fwd"] != impl["rev"]:
                 return f"missing-options message depends on set enumeration order: {impl['fwd']} vs {impl['rev']}"
